@@ -444,7 +444,7 @@ def make_exc(i):
     if i == 0:
         return OSError(errno.EIO, "injected I/O error")
     if i == 1:
-        return MemoryError("injected allocation failure")
+        return MemoryError()      # as CPython raises it: no message, str(e) == "" (seeded change r10c07)
     if i == 2:
         return InjectedFault("injected fault")
     return ValueError("injected value error")
